@@ -131,7 +131,7 @@ def write_bam(path, contigs, read_groups, alignments):
             seg.template_length = 0
             tags = [("RG", a["rg"])]
             if not (a["flag"] & FLAG_UNMAP):
-                tags.append(("MD", md_tag(contigs[a["contig"]], a["pos0"], a["cigar"], a["seq"])))
+                tags.append(("MD", a.get("md") or md_tag(contigs[a["contig"]], a["pos0"], a["cigar"], a["seq"])))
                 tags.append(("NM", 0))
             seg.set_tags(tags)
             out.write(seg)
